@@ -1,6 +1,6 @@
 (* C09  Bytes the guest transmits reach the host once, in order. *)
 From Coq Require Import ZArith List Bool.
-From Dmd Require Import Model.Bits Model.Fifo Model.Mem Model.Duart Proofs.FifoProofs Proofs.PortProofs Proofs.DuartProofs Proofs.DeviceRefine Gen.GenDuart Proofs.RegMapTie.
+From Dmd Require Import Model.Bits Model.Fifo Model.Mem Model.Duart Proofs.FifoProofs Proofs.PortProofs Proofs.DuartProofs Proofs.DeviceRefine Gen.GenDuart Proofs.RegMapTie Model.Bus Proofs.BusDuart.
 Import ListNotations.
 Open Scope Z_scope.
 
@@ -78,3 +78,16 @@ Theorem C09_write_map_is_source_register_map :
         In (off, ports, clr) gd_write_arms -> chan_op b (DWrite off v) d <> None -> In (chan_no b) ports).
 Proof. split; [exact write_undecoded | exact write_arm_channel]. Qed.
 Print Assumptions C09_write_map_is_source_register_map.
+
+(* at guest addresses, from power-on, over every interleaving of guest bus accesses (any width, address and value)
+   with host enqueues and polls, service calls, interrupt polls and mouse events, the transmit-register writes of the
+   channel being made while its status shows TxRDY: polled bytes ++ pipeline = written bytes, exactly and in order *)
+Theorem C09_guest_tx_exactly_once_in_order :
+  forall (chan : bool) (ops : list sysop) (now : Z),
+    match dtx_run chan (flat_map sys_dops ops) (duart_ (bus_new now)) [] [] with
+    | Some (d', W', Q') =>
+      Q' ++ tx_pipe (port_of chan d') = W' /\ d' = duart_ (fold_left (fun s o => sys_step o s) ops (bus_new now))
+    | None => True
+    end.
+Proof. exact guest_tx_exactly_once. Qed.
+Print Assumptions C09_guest_tx_exactly_once_in_order.
